@@ -18,7 +18,14 @@ type vhOtherKey struct{}
 // leaves refs, objects, clocks, cache files and the index untouched; with a user it
 // records exactly the requested change authored by that user and returns the new state.
 func VH_C17_gate() {
-	fx := cache.VHNewFixture()
+	// a repository with one identity or with two; the request user (bob, when there are
+	// two) is not the repository's configured user (alice)
+	nIdent := 1 + rt.Choose(2)
+	fx := cache.VHNewFixtureN(nIdent)
+	if nIdent == 1 {
+		rt.Cover("single-identity-repository")
+	}
+	user := fx.Bob
 	mrc := cache.NewMultiRepoCache()
 	rc, events := mrc.RegisterDefaultRepository(fx.Repo)
 	for e := range events {
@@ -34,10 +41,10 @@ func VH_C17_gate() {
 		ctx = context.Background()
 		rt.Cover("no-user")
 	case 1:
-		ctx = context.WithValue(context.Background(), vhOtherKey{}, fx.Alice)
+		ctx = context.WithValue(context.Background(), vhOtherKey{}, user)
 		rt.Cover("foreign-context-value")
 	default:
-		ctx = auth.CtxWithUser(context.Background(), fx.Alice)
+		ctx = auth.CtxWithUser(context.Background(), user)
 		withUser = true
 		rt.Cover("with-user")
 	}
@@ -178,7 +185,7 @@ func VH_C17_gate() {
 	snap := stored.Snapshot()
 	rt.Assert(len(snap.Operations) == opsBefore+wantOps, "exactly-the-requested-operations-recorded")
 	for k := opsBefore; k < len(snap.Operations); k++ {
-		rt.Assert(snap.Operations[k].Author().Id() == fx.Alice, "recorded-operations-authored-by-the-user")
+		rt.Assert(snap.Operations[k].Author().Id() == user, "recorded-operations-authored-by-the-user")
 	}
 	switch m {
 	case 0:
